@@ -117,7 +117,34 @@ WIRE_BODY = Stage(
     nontrivial=lambda e: True,
 )
 
+VALIDITY = Stage(
+    family="validity",
+    mc={"quick": [("MC_Validity.tla", "MC_Validity.cfg", "pass"), ("MC_Validity.tla", "MC_Validity_neg.cfg", "fail")],
+        "thorough": [("MC_Validity.tla", "MC_Validity_t.cfg", "pass"), ("MC_Validity.tla", "MC_Validity.cfg", "pass"),
+                     ("MC_Validity.tla", "MC_Validity_neg.cfg", "fail")]},
+    parts={"quick": [("", 4)], "thorough": [("", 8)]},
+    trace=("Trace_Validity.tla", "Trace_Validity.cfg"),
+    nontrivial=lambda e: True,
+)
+
 CHECKS = {
+    "C19": dict(
+        stages=[VALIDITY],
+        technique="TLA+ denotation of SMPP time strings with a civil-calendar function (Validity.tla): TLC exhaustive over all "
+                  "durations at scaled units + TLC validation of recorded ToValidatePeriod calls",
+        level_text="TLC checks that the relative formatter's output denotes exactly the duration for every duration up to the "
+                   "field capacity + 2 at scaled units (thorough: every second of three real days), days reduced modulo a "
+                   "constant being the negative configuration; the calendar function is ASSUMEd on leap-year anchors.  Real "
+                   "calls over every unit boundary +-1 s (59/60 s, 24 h, 31 d, 100 d, 365 d, 100 years), fractional, compound, "
+                   "negative and unparsable duration strings, both forms, now instants across 2000..2099 in several zones: TLC "
+                   "compares the string with RelString / AbsString(now + d in UTC) and requires refusal of negative, "
+                   "unparsable and unrepresentable requests",
+        level_note="time.ParseDuration and time arithmetic of the driver (now as day number + second) are trusted; a relative "
+                   "request of 31..99 days may be refused or answered exactly (the format can hold it, the property does not "
+                   "oblige the library to); an absolute request of zero duration may answer '' or the instant itself",
+        rule="one event per ToValidatePeriod call; distinct = distinct events",
+        assumptions=["Go time package for parsing durations and constructing now"],
+    ),
     "C18": dict(
         stages=[RECEIPT, WIRE_BODY],
         technique="TLA+ receipt grammar (Receipt.tla): TLC exhaustive over all orders/subsets of prefix-related keys on the "
